@@ -1548,7 +1548,10 @@ class _Ctx:
         if name in ("functools.reduce", "reduce") and len(args) == 3 and not kwargs:
             # functools.reduce(f, xs, init) is the loop `acc = init; for x in xs: acc = f(acc, x)`
             it_ = _iterable(args[1])
-            return ("loop", it_, args[2], self.call_value(args[0], [args[2], mk_elem(it_)], {}))
+            step_ = self.call_value(args[0], [args[2], mk_elem(it_)], {})
+            if is_t(step_, "bin") and step_[1] in ("+", "|") and step_[2] == args[2] and not contains(step_[3], args[2]):
+                return ("bin", step_[1], args[2], ("sumover", it_, step_[3]))  # the accumulation `acc op= g(x)`, as the for-loop spelling gives it
+            return ("loop", it_, args[2], step_)
         if name in ("all", "any") and len(args) == 1 and not kwargs and is_t(args[0], "call") and args[0][1] in (G("map"), G("jax.util.safe_map")) and len(args[0][2]) == 2 and not args[0][3]:
             # all(map(f, xs)) is all(f(x) for x in xs)
             it_ = _iterable(args[0][2][1])
